@@ -76,8 +76,31 @@ class ReaderPaths(object):
         methods = {s_.name for s_ in cls.body if isinstance(s_, _ast.FunctionDef)}
         self.entry = mod.get('%s.%s' % (cls_name, entry))
 
+        # methods that move the cursor exactly as the field reader does without handing the field back (`skip()`): a field
+        # consumed all the same.  Judged by what they leave in the cursor attributes, compared with the reader's own paths.
+        def cursor_effect(fd):
+            outs = set()
+            for st_, o_ in SymExec(fd, unroll=1).run():
+                if o_ not in ('return', 'fall'):
+                    return None
+                outs.add(tuple(sorted((k_, v_) for k_, v_ in st_.env.items() if isinstance(k_, str) and k_.startswith('self.'))))
+            return outs
+        movers = set()
+        nx = mod.get('%s.%s' % (cls_name, next_name), required=False) if hasattr(mod, 'get') else None
+        if nx is not None:
+            want_ = cursor_effect(nx)
+            for s_ in cls.body:
+                if isinstance(s_, _ast.FunctionDef) and s_.name not in (next_name, '__init__', entry) and len(s_.args.args) == 1 and want_ \
+                        and not any(isinstance(r_, _ast.Return) and r_.value is not None for r_ in _ast.walk(s_)):
+                    try:
+                        if cursor_effect(s_) == want_:
+                            movers.add(s_.name)
+                    except Exception:
+                        pass
+        self.movers = movers
+
         def on_call(st, t, node):
-            if t[1] == A(N('self'), next_name):
+            if t[1] == A(N('self'), next_name) or (t[1][0] == 'attr' and t[1][1] == N('self') and t[1][2] in movers and not t[2]):
                 k = st.data.get('k', 0)
                 st.data['k'] = k + 1
                 st.data.setdefault('args', {})[k] = t[2]
@@ -90,7 +113,7 @@ class ReaderPaths(object):
             opened = sum(1 for e in st.events if e[0] == 'loop-enter') - sum(1 for e in st.events if e[0] == 'loop-exit')
             return opened > 0 and any(x[0] == 'attr' and x[1] == N('self') and x[2] in methods - {next_name, 'check', 'peek'} for x in subterms(f))
         ex = SymExec(self.entry, unroll=1, on_call=on_call, inline_also=tuple((methods & set(VOCABULARY)) - {next_name, 'check', 'peek'}),
-                     no_inline=(next_name,))
+                     no_inline=(next_name,) + tuple(sorted(movers)))
         ex.fork_filter = lambda st, f: not child_read(st, f)
         self.paths = ex.run()
         self.by_kind = {'leaf': [], 'unary': [], 'binary': [], 'other': []}
